@@ -49,10 +49,12 @@ CONSTANTS Bs,            \* crop sizes (numbers of batches) to explore
           MaxOptGroups,  \* how many option groups may be non-default at once (1..4)
           StrayMaxB,     \* stray files in results/ are enumerated for B <= StrayMaxB
           ConcMax,       \* array jobs of 2..ConcMax tasks are also run as overlapping tasks, every interleaving
+          NameBs,        \* crop sizes for which the crop's name is varied
           Variant        \* "code", or a deliberately wrong reading used as self-test of the properties:
                          \* "always_all" (template 'all' although results exist), "cli_all" (CLI grows everything),
                          \* "prefix_match" (any file whose name starts like a result file counts as a result),
-                         \* "shared_file" (the program text is kept in one file shared by all tasks of the job)
+                         \* "shared_file" (the program text is kept in one file shared by all tasks of the job),
+                         \* "cli_lstrip" (the CLI strips the characters of ".xyz-" from the front of the name)
 
 VARIABLES B, res0, res, stray, explicit, opt, script, order, conc, started, lastw, clob, hist,
           ran, grown, want, other, pc
@@ -102,11 +104,18 @@ TimeOpts  == {"default", "hms", "h", "m", "s", "number", "fnumber", "string"}
 MemOpts   == {"default", "gigabytes", "mem", "percpu"}
 ParOpts   == {"default", "procs", "workers_procs", "workers", "workers_threads", "nodes", "mpi"}
 ExtraOpts == {"default", "value", "none", "true"}
-DefaultOpt == [time |-> "default", mem |-> "default", par |-> "default", extra |-> "default"]
-AllOpts == {o \in [time : TimeOpts, mem : MemOpts, par : ParOpts, extra : ExtraOpts] :
+(* the crop's name, carried with the options: "default" is the harness's usual name; the others start with
+   one of the characters of the folder prefix ".xyz-" (x.., y.., z.., -.., ...) or contain ".xyz-" inside.
+   Neither the scripts nor the CLI may care: the name is only ever a key, never parsed. *)
+NameOpts  == {"default", "x", "y", "z", "dash", "dot", "inner"}
+PrefixCharNames == {"x", "y", "z", "dash", "dot"}
+DefaultOpt == [time |-> "default", mem |-> "default", par |-> "default", extra |-> "default", name |-> "default"]
+AllOpts == {o \in [time : TimeOpts, mem : MemOpts, par : ParOpts, extra : ExtraOpts, name : {"default"}] :
                 Cardinality({g \in OptGroups : o[g] # "default"}) <= MaxOptGroups}
+NamedOpts == {[DefaultOpt EXCEPT !.name = n] : n \in NameOpts \ {"default"}}
 OptChoices(b, r, e) ==
-    IF b = OptB /\ e = NotGiven /\ r \in {{}, {1}} THEN AllOpts ELSE {DefaultOpt}
+    (IF b = OptB /\ e = NotGiven /\ r \in {{}, {1}} THEN AllOpts ELSE {DefaultOpt})
+    \cup (IF b \in NameBs /\ e = NotGiven /\ stray = {} THEN NamedOpts ELSE {})
 
 CliOpts == {"default", "workers", "threads", "quiet", "debug"}
 
@@ -242,14 +251,17 @@ OtherGrow(b) ==
     /\ UNCHANGED <<B, res0, stray, explicit, opt, script, order, conc, started, lastw, clob, hist, ran, grown, pc>>
 
 (* xyzpy-grow: crop.grow_missing() *)
-CliGrow(co) ==
+CliGrow(co, nm) ==
     /\ pc = "sown"
-    /\ LET todo == IF Variant = "cli_all" THEN Upto(B) ELSE Asc(CodeMissing(B, res))
+    /\ nm # "default" => (co = "default" /\ stray = {} /\ B \in NameBs)
+    /\ LET todo == IF Variant = "cli_all" THEN Upto(B)
+                   ELSE IF Variant = "cli_lstrip" /\ nm \in PrefixCharNames THEN <<>>   \* crop not found
+                   ELSE Asc(CodeMissing(B, res))
        IN  /\ grown' = todo
            /\ res' = res \cup Range(todo)
     /\ want' = Asc(Missing(B, res))
     /\ script' = [NoScript EXCEPT !.sched = "cli", !.mode = "cli", !.template = "cli", !.dynamic = TRUE]
-    /\ opt' = [DefaultOpt EXCEPT !.par = co]
+    /\ opt' = [DefaultOpt EXCEPT !.par = co, !.name = nm]
     /\ ran' = <<0>>
     /\ pc' = "done"
     /\ UNCHANGED <<B, res0, stray, explicit, order, conc, started, lastw, clob, hist, other>>
@@ -268,7 +280,7 @@ RunPython  == /\ pc = "running"
 Interfere  == /\ pc = "generated"
               /\ \E b \in 1..B : OtherGrow(b)
 RunCli     == /\ pc = "sown"
-              /\ \E co \in CliOpts : CliGrow(co)
+              /\ \E co \in CliOpts, nm \in NameOpts : CliGrow(co, nm)
 Finished   == pc = "done" /\ UNCHANGED vars
 
 Next == GenScript \/ RunArray \/ StartShell \/ RunPython \/ RunSingle \/ Interfere \/ RunCli \/ Finished
